@@ -2175,7 +2175,7 @@ def rule_flag_change_wakes_upstreams(A, R, rule):
                     R.ob(rule, "consider logic | %s%s | %s changes the 'needed' flag of the job's incoming dependencies | its direct upstreams are reconsidered"
                          % (A.sname(s), "" if v is None else " | verdict %s" % A.uni.show(vt, v), short(w["fn"])), ok,
                          detail=why + ": a parked upstream Ephemeral whose requirement summary just changed is never looked at again (stall)", site=A.site(w))
-    R.floor(rule, "sites in the consider logic that change the 'needed' flag of incoming dependencies", n, 3)
+    R.floor(rule, "sites in the consider logic that change the 'needed' flag of incoming dependencies", n, 2)
 
 
 def _write_in_validation(A, w, s, uvs):
